@@ -278,7 +278,7 @@ pub fn generated_docs(seed: u64, n: usize) -> Vec<Vec<u8>> {
             let p = rng.pick(&paths).clone();
             let nd = treegen::node_at_mut(&mut t, &p);
             if !matches!(nd, Node::Alias(_)) {
-                *nd = nd.clone().with_anchor(rng.pick(&names));
+                *nd = nd.clone().with_anchor(*rng.pick(&names));
             }
         }
         for _ in 0..rng.below(4) {
@@ -287,7 +287,7 @@ pub fn generated_docs(seed: u64, n: usize) -> Vec<Vec<u8>> {
             if p.is_empty() {
                 continue;
             }
-            *treegen::node_at_mut(&mut t, &p) = Node::alias(rng.pick(&names));
+            *treegen::node_at_mut(&mut t, &p) = Node::alias(*rng.pick(&names));
             if let Some((&last, parent)) = p.split_last()
                 && last % 2 == 1
                 && matches!(treegen::node_at(&t, parent), Node::Map { .. })
@@ -461,35 +461,38 @@ pub const BLOCK_SHAPES: [&str; 7] =
     ["seq-inline", "map-lines", "seq-lines", "alternating", "complex-key", "anchored-map", "enum-payload"];
 pub const FLOW_SHAPES: [&str; 5] = ["flow-seq", "flow-map", "flow-alternating", "flow-anchored", "flow-in-block"];
 
-/// Block nesting of `depth` collections of the given shape.
+/// Block nesting: `depth` nested collections of the given shape (the innermost
+/// one is an empty flow collection where the shape allows it, so that the typed
+/// recursive targets can succeed).
 pub fn block_nest(shape: &str, depth: usize) -> Vec<u8> {
     let mut s = String::new();
     let pad = |s: &mut String, n: usize| s.extend(std::iter::repeat_n(' ', n));
+    let w = depth.saturating_sub(1);
     match shape {
         "seq-inline" => {
-            for _ in 0..depth {
+            for _ in 0..w {
                 s.push_str("- ");
             }
             s.push_str("[]\n");
         }
         "seq-lines" => {
-            for i in 0..depth {
+            for i in 0..w {
                 pad(&mut s, i);
                 s.push_str("-\n");
             }
-            pad(&mut s, depth);
+            pad(&mut s, w);
             s.push_str("[]\n");
         }
         "map-lines" => {
-            for i in 0..depth {
+            for i in 0..w {
                 pad(&mut s, i);
                 s.push_str("a:\n");
             }
-            pad(&mut s, depth);
+            pad(&mut s, w);
             s.push_str("{}\n");
         }
         "alternating" => {
-            // a:\n- a:\n  - a: …   (map, seq, map, seq …)
+            // a:\n- a:\n  - a: …   (map, seq, map, seq …), innermost value a scalar
             s.push_str("a:\n");
             let mut d = 1;
             let mut i = 0;
@@ -513,11 +516,11 @@ pub fn block_nest(shape: &str, depth: usize) -> Vec<u8> {
             s.push_str("a\n");
         }
         "anchored-map" => {
-            for i in 0..depth {
+            for i in 0..w {
                 pad(&mut s, i);
                 s.push_str(&format!("a: &x{i}\n"));
             }
-            pad(&mut s, depth);
+            pad(&mut s, w);
             s.push_str("{}\n");
         }
         "enum-payload" => {
